@@ -38,6 +38,15 @@ CHECKS["C11"] = dict(
     note="assumes Go's own sync package is correct given the semaphore/notify contracts; compiled stress programs see only OS-chosen schedules",
     design="5 C11")
 
+CHECKS["C04"] = dict(
+    engine="tlc-gomachine+llgo",
+    technique="TLA+ abstract machine for core Go (GoMachine: frames, deferred-call lists, panic/recover/Goexit modes) interpreted by TLC gives the predicted trace of each generated program; llgo-compiled programs must print exactly that trace; reference toolchain self-validates the machine",
+    text="Seeded programs combining unconditional / conditional / loop defers, deferred closures that change named results, recover (directly), "
+         "panics and re-panics inside deferred calls, run-time faults, early returns and Goexit in goroutines are run by the TLA+ machine (TLC) "
+         "and by llgo-compiled code; traces and termination must agree. Fixed representative programs pin the two known deviations.",
+    note="trusts GoMachine's transcription of the spec and the Python lowering to its jump code, both self-validated against the reference toolchain on every case; O2 = reduced pipeline O2*",
+    design="5 C04")
+
 NOT_YET = {}
 
 props = [json.loads(l) for l in open(os.path.join(V, "properties.jsonl"))]
